@@ -774,6 +774,22 @@ func returnedFuncs(v ssa.Value) []*ssa.Function {
 	if src, fld, ok := structFieldOf(v); ok {
 		return returnedStructFieldFuncs(src, fld)
 	}
+	// a local function variable assigned one of several literals ("run := func(){A}; if c { run = func(){B} }; run()")
+	if ph, ok := v.(*ssa.Phi); ok {
+		var out []*ssa.Function
+		seen := map[*ssa.Function]bool{}
+		for _, ev := range ph.Edges {
+			f := funcArg(ev)
+			if f == nil {
+				return nil
+			}
+			if !seen[f] {
+				seen[f] = true
+				out = append(out, f)
+			}
+		}
+		return out
+	}
 	idx := -1
 	if ex, ok := v.(*ssa.Extract); ok {
 		idx = ex.Index
